@@ -19,7 +19,7 @@ from __future__ import annotations
 import ast
 
 from .. import astutil as A
-from ..alg import Interp, Obj, Poly, RaisedInFragment, Undecided
+from ..alg import FragmentFault, Interp, Obj, Poly, RaisedInFragment, Undecided
 from ..cfg import CFG
 from ..dep import Deps
 from .c01 import registry
@@ -332,7 +332,7 @@ def _lengths_interpreted(ctx, r4, r6, repo, reg):
     at, c = Poly.atom, Poly.const
     errs = (Undecided, KeyError, TypeError, ValueError, IndexError, AttributeError)
     pyhf_excs = set(repo.module("src/pyhf/exceptions/__init__.py").classes)
-    nb = {"c1": 2, "c2": 2}
+    nb = {"c1": 2, "c2": 2, "c3": 2}
 
     worlds = {}
 
@@ -345,8 +345,9 @@ def _lengths_interpreted(ctx, r4, r6, repo, reg):
             worlds[b.name] = World(ext, region=AutoRegion(), module_env={"pyhf": Obj("pyhf", {"default_backend": Obj("default_backend")}), "exceptions": Obj("exceptions")})
             worlds[b.name].add_class(b)
         w = worlds[b.name]
-        cfg = Obj("config", {"channel_nbins": {k_: c(v_) for k_, v_ in nb.items()}, "channels": ["c1", "c2"], "samples": ["s"]})
+        cfg = Obj("config", {"channel_nbins": {k_: c(v_) for k_, v_ in nb.items()}, "channels": ["c1", "c2", "c3"], "samples": ["s"]})
         inst = w.new(b, [cfg], {})
+        cells = list(cells) + [(ch_, None) for ch_ in nb if ch_ not in [x[0] for x in cells]]
         for ch, moddata in cells:
             samp = {"name": "s", "data": [at(f"n_{ch}_{j}") for j in range(nb[ch])]}
             thismod = None if moddata is None else {"name": key.split("/")[1], "type": key.split("/")[0], "data": moddata}
@@ -366,10 +367,14 @@ def _lengths_interpreted(ctx, r4, r6, repo, reg):
                 return {"lo_data": vec(f"lo{t}", n_lo), "hi_data": vec(f"hi{t}", n_lo if n_hi is None else n_hi)}
             cases = [("well-formed", [("c1", d(2)), ("c2", d(2, t="b"))], False), ("too long", [("c1", d(3)), ("c2", None)], True), ("too short", [("c1", d(1)), ("c2", None)], True),
                      ("only lo_data too long", [("c1", d(3, 2)), ("c2", None)], True), ("only hi_data too short", [("c1", d(2, 1)), ("c2", None)], True),
-                     ("one too long in c1, one too short in c2 (lengths cancel)", [("c1", d(3)), ("c2", d(1, t="b"))], True)]
+                     ("one too long in c1, one too short in c2 (lengths cancel)", [("c1", d(3)), ("c2", d(1, t="b"))], True),
+                     ("first channel fine, one too long in c2, one too short in c3 (lengths cancel)", [("c1", d(2)), ("c2", d(3, t="b")), ("c3", d(1, t="c"))], True),
+                     ("first two channels fine, third too long", [("c1", d(2)), ("c2", d(2, t="b")), ("c3", d(3, t="c"))], True)]
         else:
             cases = [("well-formed", [("c1", vec("u", 2)), ("c2", vec("v", 2))], False), ("too long", [("c1", vec("u", 3)), ("c2", None)], True), ("too short", [("c1", vec("u", 1)), ("c2", None)], True),
-                     ("one too long in c1, one too short in c2 (lengths cancel)", [("c1", vec("u", 3)), ("c2", vec("v", 1))], True)]
+                     ("one too long in c1, one too short in c2 (lengths cancel)", [("c1", vec("u", 3)), ("c2", vec("v", 1))], True),
+                     ("first channel fine, one too long in c2, one too short in c3 (lengths cancel)", [("c1", vec("u", 2)), ("c2", vec("v", 3)), ("c3", vec("w", 1))], True),
+                     ("first two channels fine, third too long", [("c1", vec("u", 2)), ("c2", vec("v", 2)), ("c3", vec("w", 3))], True)]
         for lab, cells, must_raise in cases:
             site = f"{b.relpath}::{b.name} [{lab}]"
             try:
@@ -391,6 +396,50 @@ def _lengths_interpreted(ctx, r4, r6, repo, reg):
                     ctx.violated(r4, b, f"{typ} data length [{lab}]", f"the builder fails with a foreign {type(e).__name__} instead of a pyhf exception")
                 else:
                     ctx.unrecognised(r4, b, f"{typ} [{lab}]", f"not interpretable: {type(e).__name__}: {e}")
+    # ---- one staterror name on DIFFERENT sets of bins in different samples (its parameters would be sized by one sample
+    # and applied to the bins of the other)
+    if "staterror" in reg:
+        b = reg["staterror"][0]
+        ext = listnp.externals()
+        ext.update({"required_parset": lambda a, k: {"required": True}})
+        wst = World(ext, region=AutoRegion(), module_env={"pyhf": Obj("pyhf", {"default_backend": Obj("default_backend")}), "exceptions": Obj("exceptions")})
+        wst.add_class(b)
+        layouts = [
+            ("both samples carry it in the same channel", {("c1", "s1"), ("c1", "s2")}, False),
+            ("sample s1 carries it in c1, sample s2 in c2, nobody in c3", {("c1", "s1"), ("c2", "s2")}, True),
+            ("sample s1 carries it in c1 and c2, sample s2 in c1 only", {("c1", "s1"), ("c2", "s1"), ("c1", "s2")}, True),
+            ("both samples carry it in c1 and c3", {("c1", "s1"), ("c3", "s1"), ("c1", "s2"), ("c3", "s2")}, False),
+        ]
+        for lab, where, must_raise in layouts:
+            site = f"{b.relpath}::{b.name} [one name, {lab}]"
+            try:
+                cfg = Obj("config", {"channel_nbins": {k_: c(v_) for k_, v_ in nb.items()}, "channels": ["c1", "c2", "c3"], "samples": ["s1", "s2"]})
+                inst = wst.new(b, [cfg], {})
+                for ch in ("c1", "c2", "c3"):
+                    for sm in ("s1", "s2"):
+                        samp = {"name": sm, "data": [at(f"n_{sm}_{ch}_{j}") for j in range(nb[ch])]}
+                        thismod = {"name": "st", "type": "staterror", "data": [at(f"e_{sm}_{ch}_{j}") for j in range(nb[ch])]} if (ch, sm) in where else None
+                        wst.call_method(inst, "append", ["staterror/st", ch, sm, thismod, samp])
+                wst.call_method(inst, "finalize", [])
+                if must_raise:
+                    ctx.violated(r4, b.methods.get("finalize") or b, f"staterror bins per sample [{lab}]", "one staterror name applied to different sets of bins in different samples is accepted: its parameters are sized and constrained from one sample's bins and applied to the other's", expected="raise InvalidModifier", found="accepted")
+                else:
+                    ctx.holds(r4, site, "accepted")
+            except RaisedInFragment as e:
+                cls_ = e.exc_name.split(".")[-1]
+                if must_raise and cls_ in pyhf_excs:
+                    ctx.holds(r4, site, f"refused with {cls_}")
+                elif must_raise:
+                    ctx.violated(r4, b, f"staterror bins per sample [{lab}]", f"refused with {e.exc_name}, which is not one of pyhf's exception types")
+                else:
+                    ctx.violated(r4, b, f"staterror [{lab}]", f"a well-formed modifier is refused with {e.exc_name}")
+            except FragmentFault as e:
+                if must_raise:
+                    ctx.violated(r4, b, f"staterror bins per sample [{lab}]", f"construction runs into an indexing fault instead of a pyhf exception: {e}")
+                else:
+                    ctx.unrecognised(r4, b, f"staterror [{lab}]", f"fault: {e}")
+            except errs as e:
+                ctx.unrecognised(r4, b, f"staterror [{lab}]", f"not interpretable: {type(e).__name__}: {e}")
     # ---- duplicate names: the whole builder pipeline interpreted on specifications that pass the schema
     _duplicates_interpreted(ctx, repo, reg, pyhf_excs)
     # ---- overrides of the wrong length
@@ -414,6 +463,56 @@ def _lengths_interpreted(ctx, r4, r6, repo, reg):
                     ctx.violated(r6, red, f"override length [{keyname} {lab}]", f"refused with {e.exc_name}, not a pyhf exception")
             except errs as e:
                 ctx.unrecognised(r6, red, f"override length [{keyname} {lab}]", f"not interpretable: {type(e).__name__}: {e}")
+    _overrides_through_the_model(ctx, r6, repo, pyhf_excs)
+
+
+def _overrides_through_the_model(ctx, r6, repo, pyhf_excs):
+    """The same wrong-length overrides entered where a user enters them: the measurement's parameter list handed to
+    _finalize_parameters_specs (pdf.py), which prepares them for reduce_paramsets_requirements.  Values are given the way
+    JSON delivers them (lists; integers for inits), and also for `sigmas` on a Gaussian-constrained set."""
+    from ..alg import RaisedInFragment, to_poly
+    from ..objmodel import World
+    at, c = Poly.atom, Poly.const
+    errs = (Undecided, KeyError, TypeError, ValueError, IndexError, AttributeError)
+    fin = repo.func(PDF, "_finalize_parameters_specs")
+    red = repo.func(PU, "reduce_paramsets_requirements")
+    ctx.touch(fin)
+
+    def req(kind):
+        base = {"n_parameters": c(2), "is_scalar": False, "inits": (at("DI0"), at("DI1")), "bounds": ((at("DL0"), at("DH0")), (at("DL1"), at("DH1"))), "fixed": (False, False)}
+        if kind == "poisson":
+            base.update({"paramset_type": "constrained_by_poisson", "auxdata": (at("DA0"), at("DA1")), "factors": (at("DF0"), at("DF1"))})
+        else:
+            base.update({"paramset_type": "constrained_by_normal", "auxdata": (at("DA0"), at("DA1")), "sigmas": (at("DS0"), at("DS1"))})
+        return base
+
+    w = World({"__strict__": True}, module_env={"exceptions": Obj("exceptions"), "log": Obj("log")})
+    w.add_func(fin).add_func(red)
+    plan = [("poisson", k_) for k_ in ("inits", "bounds", "auxdata", "factors")] + [("normal", k_) for k_ in ("inits", "sigmas", "auxdata")]
+    for kind, keyname in plan:
+        for n_, lab in ((2, "right length"), (1, "too short"), (3, "too long")):
+            val = [[c(0), c(5)] for _ in range(n_)] if keyname == "bounds" else [c(j + 1) for j in range(n_)]
+            site = f"{PDF}::_finalize_parameters_specs -> reduce_paramsets_requirements [{kind}-constrained set, {keyname} override {lab}]"
+            try:
+                out = w.call_func(fin, [[{"name": "q", keyname: val}], {"q": [req(kind)]}])
+                if n_ != 2:
+                    ctx.violated(r6, fin, f"override length through the model [{kind}, {keyname} {lab}]", f"a measurement that sets `{keyname}` of a 2-component parameter set to {n_} value(s) is accepted at model construction: the surplus / missing values shift onto unrelated parameters", expected="raise InvalidModel", found="accepted")
+                else:
+                    got = (out or {}).get("q", {}).get(keyname) if isinstance(out, dict) else None
+                    same = isinstance(got, (list, tuple)) and [str(to_poly(y)) if not isinstance(y, (list, tuple)) else [str(to_poly(z)) for z in y] for y in got] == [str(to_poly(y)) if not isinstance(y, (list, tuple)) else [str(to_poly(z)) for z in y] for y in val]
+                    if same:
+                        ctx.holds(r6, site, "accepted, values as given")
+                    else:
+                        ctx.violated(r6, fin, f"override through the model [{kind}, {keyname}]", f"a well-formed override of `{keyname}` does not arrive in the merged requirements as given", expected=str(val), found=str(got))
+            except RaisedInFragment as e:
+                if n_ == 2:
+                    ctx.violated(r6, fin, f"override through the model [{kind}, {keyname}]", f"a well-formed override is refused with {e.exc_name}")
+                elif e.exc_name.split(".")[-1] in pyhf_excs:
+                    ctx.holds(r6, site, f"refused with {e.exc_name.split('.')[-1]}")
+                else:
+                    ctx.violated(r6, fin, f"override length through the model [{kind}, {keyname} {lab}]", f"refused with {e.exc_name}, not a pyhf exception")
+            except errs as e:
+                ctx.unrecognised(r6, fin, f"override through the model [{kind}, {keyname} {lab}]", f"not interpretable: {type(e).__name__}: {e}")
 
 
 def _model_builder_refuses_duplicate_channels(repo):
